@@ -37,7 +37,7 @@ def members (n : Nat) : Slice → List Nat
   | .all => List.range n
   | .none => []
   | .single i => if i < n then [i] else []
-  | .range start stop => (List.range' start (stop - start)).filter (· < n)
+  | .range start stop => List.range' start (min stop n - start)
   | .not s => (List.range n).filter fun k => !(members n s).contains k
   | .and a b => (members n a).filter fun k => (members n b).contains k
   | .or a b => (List.range n).filter fun k => (members n a).contains k || (members n b).contains k
